@@ -44,6 +44,12 @@ func nameOf(i int) string {
 // 3 time passes; names: 0 a.com, 1 b.com, 2 x.a.com; 99 ends the list); signers, receivers, lifetimes, years
 // and time spans are symbolic.
 func VerifC10Lifecycle() {
+	// param 5 = 1: the pool names are com.com, b.com, x.com.com — a name whose leftmost label is also the name
+	// of a registered TLD is an ordinary name (ten-year renewal cap, owner, expiry like any other)
+	c10Names[0], c10Names[2] = "a.com", "x.a.com"
+	if vParam(5) == 1 {
+		c10Names[0], c10Names[2] = "com.com", "x.com.com"
+	}
 	vDeploy("nns", []any{[]any{"com", "ops@nspcc.io"}})
 	tldExp = vTime() + 10*yearMs
 	for i := 0; i < 3; i++ {
@@ -205,6 +211,9 @@ func VerifC10ExpiredTLD() {
 	okR, _ := vRead("nns", "resolve", "a.org", 16)
 	okA, _ := vRead("nns", "getAllRecords", "a.org")
 	vAssert(okG == live && okR == live && okA == live, "C10/records-answer-only-while-the-whole-chain-is-unexpired")
+	// the same under C12 (this harness is also registered there): records become unreachable when the name —
+	// or a name enclosing it, the TLD included — expires, through every getter alike
+	vAssert(okG == live && okR == live && okA == live, "C12/records-unreachable-exactly-when-the-name-or-its-parent-chain-expired")
 	vCoverIf(t >= expTLD && t < expName, "tld-expired-while-the-name-is-alive")
 	vCoverIf(t < expTLD && t >= expName, "name-expired-while-the-tld-is-alive")
 	vCoverIf(live, "both-alive")
